@@ -137,6 +137,14 @@ def make_singleton_classes(log):
     return ts, [S0, S1, S2, S3, S4, S5]
 
 
+class FalsyTableFilter(TableFilter):
+    """the same filter, but the callable object itself is falsy (a legal filterfunc: only
+    `filterfunc is None` means "no filter")"""
+
+    def __bool__(self):
+        return False
+
+
 class VertexFilter:
     """ff_result family: filter k accepts x iff bit (code(x) % 64) of k (code None = 0, Vi = i+1)"""
 
@@ -210,14 +218,14 @@ class Real:
         if k is None:
             return None
         if k not in self.filters2:
-            self.filters2[k] = TableFilter(self, k, 2)
+            self.filters2[k] = (FalsyTableFilter if k % 3 == 1 else TableFilter)(self, k, 2)
         return self.filters2[k]
 
     def filt1(self, k):
         if k is None:
             return None
         if k not in self.filters1:
-            self.filters1[k] = TableFilter(self, k, 1)
+            self.filters1[k] = (FalsyTableFilter if k % 3 == 1 else TableFilter)(self, k, 1)
         return self.filters1[k]
 
     def inst_name(self, table, obj, prefix):
